@@ -507,9 +507,20 @@ impl<'a> History<'a> {
 		}
 	}
 
-	fn do_lock(&mut self, fi: usize, _rng: &mut Rng) {
+	fn do_lock(&mut self, fi: usize, rng: &mut Rng) {
 		let f = self.flights[fi].clone();
 		if f.kind == Kind::LateLock {
+			// The command-line `send` calls tx_lock_outputs after every init_send_tx, late-locked or not
+			// (controller/src/command.rs). Whatever the wallet answers, the flight must still complete as
+			// a late-locked send whose inputs are reserved at finalization (judged there by M-excl).
+			if !f.finalized && !f.cancelled_payer && !f.cancelled_payee && rng.chance(1, 2) {
+				if let Some(s1) = f.s1.clone() {
+					self.set_acct(f.payer, &f.payer_acct);
+					let r = self.w.wallets[f.payer].lock_outputs(&s1);
+					self.stat(&format!("op:lock-called-on-a-late-locked-send-before-finalize:{}", if r.is_ok() { "ok" } else { "refused" }));
+					self.ev("tx_lock_outputs", json!({"slate": f.id.to_string(), "wallet": f.payer, "late_locked_send": true}), &format!("{:?}", r.as_ref().map_err(err_kind)));
+				}
+			}
 			return;
 		}
 		let slate = match f.kind {
@@ -661,6 +672,9 @@ impl<'a> History<'a> {
 		};
 		if repeat {
 			self.judge_repeat("finalize_tx", wi, before, r.is_ok(), true);
+		}
+		if f.kind == Kind::Invoice && f.payer == f.payee && !repeat {
+			self.stat(&format!("op:finalize-of-a-self-paid-invoice:{}", match &r { Ok(_) => "ok".to_string(), Err(e) => format!("refused:{}", err_kind(e)) }));
 		}
 		match &r {
 			Ok(s3) => {
